@@ -705,6 +705,33 @@ func (e *Exec) do(c *Call, ev *Event) (targets []int) {
 		l := e.list(c.Xs)
 		before := append([]*roaring.Bitmap(nil), l...)
 		var r *roaring.Bitmap
+		if raceEnabled && strings.HasPrefix(c.Op, "Par") {
+			// "no conflicting accesses ... to their input bitmaps": while the call runs, other goroutines READ the inputs
+			// (reads of a bitmap nobody may write are always allowed); a worker that writes into an input's storage is
+			// then a data race the detector reports, whatever the schedule.
+			stop := make(chan struct{})
+			var wg sync.WaitGroup
+			for _, in := range l {
+				wg.Add(1)
+				go func(b *roaring.Bitmap) {
+					defer wg.Done()
+					for k := 0; ; k++ {
+						select {
+						case <-stop:
+							return
+						default:
+						}
+						it := b.Iterator()
+						for n := 0; it.HasNext() && n < 4096; n++ {
+							it.Next()
+						}
+						b.Contains(uint32(k * 7919))
+						runtime.Gosched()
+					}
+				}(in)
+			}
+			defer func() { close(stop); wg.Wait() }()
+		}
 		switch c.Op {
 		case "FastOr":
 			r = roaring.FastOr(l...)
